@@ -1541,7 +1541,9 @@ void Block::shareOrphaned(intptr_t binTag, unsigned index)
     STAT_increment(getThreadId(), index, freeBlockPublic);
     markOrphaned();
     __TBB_VERIF_POINT(vp_tm_orphan_put, this, 0);
-    if ((intptr_t)nextPrivatizable.load(std::memory_order_relaxed) == binTag) {
+    // acquire: if the block is already in the mailbox, the store in Bin::addPublicFreeListBlock by the thread
+    // that freed an object must happen before the block is changed and shared below
+    if ((intptr_t)nextPrivatizable.load(std::memory_order_acquire) == binTag) {
         // First check passed: the block is not in mailbox yet.
         // Need to set publicFreeList to non-zero, so other threads
         // will not change nextPrivatizable and it can be zeroed.
